@@ -53,6 +53,11 @@ def inners():
         ('ref-ignore', ('ref', 'R'), {'R': ('seq', [('str', 'a'), ('opt', ('str', 'b'))])}, [('ignore', ('str', ' '))]),
         ('template', ('call', 'W', [('str', 'a')]), {}, [('rule', 'W', ['p'], ('seq', [('ref', 'p'), ('opt', ('str', 'b'))]))]),
         ('class', ('ref', 'K'), {}, [('class', 'K', None, [('field', 'x', ('str', 'a')), ('field', 'y', ('opt', ('str', 'b')))])]),
+        # a let *inside* the nest whose body is directly the use of the name (count / inline Python)
+        ('let-count', ('let', 'n', ('apply', ('re', '[ab]', False), ('py', "lambda c: {'a': 1, 'b': 2}[c]")),
+                       ('rep', ('str', 'b'), ('name', 'n'), ('name', 'n'))), {}, []),
+        ('let-read', ('let', 'v', T, ('py', 'v')), {}, []),
+        ('let-where', ('let', 'v', T, ('where', T, ('py', 'lambda w: w != v'))), {}, []),
     ]
 
 
